@@ -262,13 +262,38 @@ def rule_r(repo, res):
         can_minus = any(l.startswith("-") or l == "-" for l in lits)
         tests_sign = any(isinstance(n, ast.Compare) and ("timedelta" in norm(n) or "total_seconds" in norm(n) or "days" in norm(n))
                          and any(isinstance(o, (ast.Lt, ast.Gt, ast.LtE, ast.GtE)) for o in n.ops) for n in ast.walk(cfn))
-        ok = ("-" not in signs_dec) or (can_minus and tests_sign)
+        # the sign is read off the offset itself: a test of a value that went through abs() (or was negated before) is
+        # never negative, so '-' is never written
+        def _sign_destroyed():
+            absed = set()
+            for a_ in ast.walk(fn):
+                if isinstance(a_, ast.Assign) and isinstance(a_.value, ast.Call) and norm(a_.value.func) == "abs":
+                    for t_ in a_.targets:
+                        if isinstance(t_, ast.Name):
+                            absed.add((t_.id, a_.lineno))
+            for n_ in ast.walk(fn):
+                if isinstance(n_, ast.Compare) and any(isinstance(o, (ast.Lt, ast.Gt, ast.LtE, ast.GtE)) for o in n_.ops) \
+                        and ("timedelta" in norm(n_) or "total_seconds" in norm(n_) or "days" in norm(n_)):
+                    for x_ in ast.walk(n_):
+                        if isinstance(x_, ast.Call) and norm(x_.func) == "abs":
+                            return n_
+                        if isinstance(x_, ast.Name) and any(x_.id == nm and n_.lineno >= ln for nm, ln in absed):
+                            return n_
+            return None
+        destroyed = _sign_destroyed()
+        ok = ("-" not in signs_dec) or (can_minus and tests_sign and destroyed is None)
         res.oblige("R2", f"{c}.encode_time can write both signs the reader accepts ({sorted(signs_dec)}) or refuses", ok=ok)
         if not ok:
-            res.add(Finding("R2", f"{c}.encode_time", "sign of the zone offset",
-                            f"{c}.encode_time always writes '+' before the offset and never tests its sign: str() of a "
-                            "negative timedelta is '-1 day, 19:00:00', so a negative offset is written as "
-                            "'+-1 day, 19' -- text no reader accepts", where=f"pvl/encoder.py:{fn.lineno}"))
+            if destroyed is not None and can_minus and tests_sign:
+                res.add(Finding("R2", f"{c}.encode_time", "sign of the zone offset tested after abs()",
+                                f"{c}.encode_time decides the sign with `{norm(destroyed, 60)}`, a value that went through abs(): the "
+                                "test never holds, so a time west of UTC is written with '+' and read back as another instant",
+                                where=f"pvl/encoder.py:{destroyed.lineno}"))
+            else:
+                res.add(Finding("R2", f"{c}.encode_time", "sign of the zone offset",
+                                f"{c}.encode_time always writes '+' before the offset and never tests its sign: str() of a "
+                                "negative timedelta is '-1 day, 19:00:00', so a negative offset is written as "
+                                "'+-1 day, 19' -- text no reader accepts", where=f"pvl/encoder.py:{fn.lineno}"))
 
 
 def rule_decode_side(repo, res):
